@@ -8,7 +8,7 @@ CONSTANTS
   Genesis <- GenesisU
   Info0 <- InfoU
   None <- NoneV
-  Known <- KnownAll
+  Known <- Known1
 VIEW View
 CONSTRAINT Bound
 INVARIANT C17Holds
